@@ -19,7 +19,6 @@ LastOp == IF hist = <<>> THEN [op |-> "init"] ELSE hist[Len(hist)]
 (* search itself runs over the distinct object states.  The depth in the view keeps the set of         *)
 (* explored states exact for any number of workers.                                                    *)
 View == IF fin THEN <<s, prev, LastOp, TRUE>> ELSE <<s, Len(hist), FALSE>>
-Deviated == "deviation" \in tags             \* the last step was a known deviation: the object is broken, stop there
 
 Srcs == UNION {[1..n -> Chars] : n \in 0..MaxSrc}
 Srcs1 == Srcs \ {<<>>}
@@ -60,28 +59,27 @@ TagsOf(S, op, S2) ==
         THEN {"selfInPlace"} ELSE {})
   \cup (IF op.op \in {"assignSubSelf", "substrSelf"} /\ op.pos > 0 THEN {"selfMove"} ELSE {})
   \cup (IF ~DEmpty(S) /\ S.n = 0 THEN {"emptyWithBuffer"} ELSE {})
-  \cup (IF SKnownDeviation(S, op) THEN {"deviation"} ELSE {})
+  \cup (IF SRepairedPath(S, op) THEN {"repaired"} ELSE {})       \* runs through code repaired by a fix: commit
 
-Do(op, g) ==
+Do(op) ==
   /\ StrApply(Units(s), op).ok
   /\ (op.op = "resize" => op.n < s.n)                           \* growing with the default unit would put 0 inside
   /\ (op.op = "resizeC" => op.n # s.n)
   /\ (op.op = "reserve" => op.n > Capacity(s))
-  /\ (g => ~SKnownDeviation(s, op))
   /\ LET r == SImplApply(s, op) IN
        /\ s' = r.s /\ res' = r.res /\ other' = r.other /\ tags' = TagsOf(s, op, r.s)
   /\ prev' = s
   /\ hist' = Append(hist, op)
 
-NextG(g) == /\ ~fin /\ Len(hist) < MaxHist
-            /\ \E op \in Ops : /\ Do(op, g)
-                                /\ \/ fin' = TRUE
-                                   \/ fin' = FALSE /\ Len(hist) + 1 < MaxHist /\ "deviation" \notin tags' /\ s'.n <= MaxLen
-Spec == Init /\ [][NextG(TRUE)]_vars
-GenSpec == Init /\ [][NextG(FALSE)]_vars
+Next == /\ ~fin /\ Len(hist) < MaxHist
+        /\ \E op \in Ops : /\ Do(op)
+                            /\ \/ fin' = TRUE
+                               \/ fin' = FALSE /\ Len(hist) + 1 < MaxHist /\ s'.n <= MaxLen
+Spec == Init /\ [][Next]_vars
+GenSpec == Spec                                 \* (no known deviation is left to be generated separately)
 
-(* random long histories (tlc -simulate): only advancing steps, known deviations kept out *)
-SimNext == ~fin /\ Len(hist) < MaxHist /\ \E op \in Ops : Do(op, TRUE) /\ fin' = FALSE /\ s'.n <= MaxLen
+(* random long histories (tlc -simulate): only advancing steps *)
+SimNext == ~fin /\ Len(hist) < MaxHist /\ \E op \in Ops : Do(op) /\ fin' = FALSE /\ s'.n <= MaxLen
 SimSpec == Init /\ [][SimNext]_vars
 
 (* ---- properties ---------------------------------------------------------------------------- *)
@@ -96,11 +94,7 @@ StepRefines ==
      /\ res' = a.res
      /\ StrOtherOK(Units(prev'), op, other')
      /\ ~s'.oob
-Refinement == [][~SKnownDeviation(prev', hist'[Len(hist')]) => StepRefines]_vars
+Refinement == [][StepRefines]_vars              \* no exclusions: every transition of the transcribed algorithm
 
-InvariantsInv == ~Deviated => Invariants(s)
-
-(* the known deviations are real: under GenSpec every step taken where the predicate holds breaks   *)
-(* the contract (a repaired algorithm makes this fail; predicate and known finding go together)      *)
-DeviationsAreReal == [][SKnownDeviation(prev', hist'[Len(hist')]) => ~StepRefines]_vars
+InvariantsInv == Invariants(s)
 =============================================================================
